@@ -728,7 +728,16 @@ def compare_sets(pname, snap, got, blocks_after, problems, exact):
                     return out
         removed_live = want - got
         kept_dead = got - want
-        if removed_live:
+        gone_blocks = [b for n in snap.nodes if n.id in got for reg in n.regions for b in reg[1:]
+                       if b.reach and b.ops and all(o.id not in got for o in b.ops)]
+        gone_blocks += [b for b in snap.top[1:] if b.reach and b.ops and all(o.id not in got for o in b.ops)]
+        if gone_blocks:
+            last = sorted({b.ops[-1].name for b in gone_blocks})
+            out.append((f"{pname}:reachable-block-removed",
+                        f"{pname} deleted {len(gone_blocks)} reachable block(s) (ending in {last[:3]}) with everything in "
+                        f"them: {_names(snap, removed_live)}",
+                        {"removed_live": sorted(removed_live)[:8], "kept_removable": sorted(kept_dead)[:8]}))
+        elif removed_live:
             why = _top_reasons(snap, removed_live, allids - got, "used-by-live-op")
             out.append((f"{pname}:removed-live:{'|'.join(why)}",
                         f"{pname} removed ops the reference keeps: {_names(snap, removed_live)}",
@@ -778,7 +787,7 @@ def _visible(n):
 def plan(tier, seed):
     jobs = []
     if tier == "quick":
-        ns, ne, per_s, per_e = 16, 8, 160, 30
+        ns, ne, per_s, per_e = 12, 4, 140, 40
     else:
         ns, ne, per_s, per_e = 64, 32, 2500, 400
     for i in range(ns):
@@ -1039,14 +1048,14 @@ def finish(agg, tier):
     c = agg.counters
     inc = []
     scale = 1 if tier == "quick" else 10
-    need = {"struct_modules": 1500, "exec_programs": 120, "runs_dce": 1600, "runs_canonicalize": 400, "runs_bare": 400,
-            "runs_bare_rev": 250, "runs_legacy": 400, "exec_runs_compared": 800,
-            "hook_would_be_trivially_dead_calls": 100000, "hook_is_trivially_dead_true": 10000,
-            "hook_region_dce_calls": 1500, "hook_propagate_op_liveness_calls": 100000, "hook_delete_dead_calls": 8000,
-            "struct_modules_with_unreachable_block": 600, "struct_modules_where_liveness_beats_trivial": 500,
-            "struct_modules_needing_more_than_one_round": 100,
-            "struct_modules_with_block_reachable_only_through_unregistered_terminator": 150, "exec_programs_with_unreachable_block": 30,
-            "nontrivial_cases": 800}
+    need = {"struct_modules": 1000, "exec_programs": 80, "runs_dce": 1100, "runs_canonicalize": 250, "runs_bare": 250,
+            "runs_bare_rev": 150, "runs_legacy": 250, "exec_runs_compared": 500,
+            "hook_would_be_trivially_dead_calls": 70000, "hook_is_trivially_dead_true": 6000,
+            "hook_region_dce_calls": 1000, "hook_propagate_op_liveness_calls": 70000, "hook_delete_dead_calls": 5000,
+            "struct_modules_with_unreachable_block": 400, "struct_modules_where_liveness_beats_trivial": 300,
+            "struct_modules_needing_more_than_one_round": 80,
+            "struct_modules_with_block_reachable_only_through_unregistered_terminator": 150,
+            "exec_programs_with_unreachable_block": 20, "nontrivial_cases": 500}
     for k, n in need.items():
         if c.get(k, 0) < n * scale:
             inc.append(f"{k}={c.get(k, 0)} below the reach threshold {n * scale}")
